@@ -78,6 +78,9 @@ pub fn machinery_error(msg: &str) -> ! {
 }
 
 pub fn silence_panics() {
+    if std::env::var("VERIF_SHOW_PANICS").is_ok() {
+        return;
+    }
     std::panic::set_hook(Box::new(|_| {}));
 }
 
@@ -92,6 +95,72 @@ pub fn guard<T>(f: impl FnOnce() -> T) -> Result<T, String> {
         } else {
             "panic with non-string payload".to_string()
         }),
+    }
+}
+
+
+/// Runs one stored case in a child process (this executable, sub-command `case`; the case travels on stdin, the
+/// verdicts come back on one stdout line). A case that kills the process that executes it - stack overflow, abort on an
+/// absurd allocation - thereby becomes a verdict about that case instead of a crash of the engine. The child executes
+/// the case on a thread with the default stack of spawned Rust threads (2 MiB), as the in-process workers do.
+pub fn isolated(prop: &str, case: &Value) -> Vec<(String, String)> {
+    use std::io::Write;
+    use std::os::unix::process::ExitStatusExt;
+    use std::process::{Command, Stdio};
+    let exe = std::env::current_exe().unwrap_or_else(|_| machinery_error("cannot locate the engine executable"));
+    let mut child = Command::new(exe)
+        .args(["case", prop])
+        .stdin(Stdio::piped())
+        .stdout(Stdio::piped())
+        .stderr(Stdio::piped())
+        .spawn()
+        .unwrap_or_else(|_| machinery_error("cannot start a child engine"));
+    {
+        let mut stdin = child.stdin.take().unwrap();
+        let _ = stdin.write_all(case.to_string().as_bytes());
+    }
+    let out = child.wait_with_output().unwrap_or_else(|_| machinery_error("cannot wait for a child engine"));
+    let stdout = String::from_utf8_lossy(&out.stdout).to_string();
+    let stderr = String::from_utf8_lossy(&out.stderr).to_string();
+    if out.status.success() {
+        for l in stdout.lines() {
+            if let Some(j) = l.strip_prefix("CASE-RESULT ") {
+                if let Ok(v) = serde_json::from_str::<Vec<(String, String)>>(j) {
+                    return v;
+                }
+            }
+        }
+        machinery_error("a child engine ended without a result line");
+    }
+    match out.status.signal() {
+        // the process was ended by its own fault handling: a verdict about the code under test
+        Some(sig @ (4 | 6 | 7 | 8 | 11)) => {
+            let tail: String = stderr.lines().rev().take(3).collect::<Vec<_>>().into_iter().rev().collect::<Vec<_>>().join(" | ");
+            vec![("crash".into(), format!("the process executing this case was ended by signal {} ({})", sig, if tail.is_empty() { "no message".into() } else { tail }))]
+        }
+        _ => machinery_error(&format!("a child engine ended with {:?}: {}", out.status, stderr.lines().last().unwrap_or(""))),
+    }
+}
+
+/// the child side of `isolated`
+pub fn isolated_child(prop: &str, dispatch: fn(&str, &Value) -> Vec<(String, String)>) -> ! {
+    let mut text = String::new();
+    use std::io::Read;
+    let _ = std::io::stdin().read_to_string(&mut text);
+    let case: Value = serde_json::from_str(&text).unwrap_or_else(|_| machinery_error("case: stdin is not JSON"));
+    // a child that hangs ends itself after the parent's watchdog has fired
+    std::thread::spawn(|| {
+        std::thread::sleep(std::time::Duration::from_secs(150));
+        std::process::exit(3);
+    });
+    let prop = prop.to_string();
+    let h = std::thread::Builder::new().stack_size(2 << 20).spawn(move || dispatch(&prop, &case)).unwrap();
+    match h.join() {
+        Ok(v) => {
+            println!("CASE-RESULT {}", serde_json::to_string(&v).unwrap());
+            std::process::exit(0);
+        }
+        Err(_) => machinery_error("case: panic outside a guarded region"),
     }
 }
 
@@ -164,6 +233,16 @@ impl Run {
                 case,
             });
         }
+    }
+
+
+    /// executes a stored case in a child process (see `isolated`) and records what it reports
+    pub fn isolated_case(&self, case: Value, what: &str) {
+        self.heartbeat();
+        for (kind, msg) in isolated(&self.prop, &case) {
+            self.violation(&kind, format!("{} ({})", msg, what), case.clone());
+        }
+        self.heartbeat();
     }
 
     /// removes and returns the stored violations (used when a run is only a collector)
@@ -255,6 +334,14 @@ impl Run {
             for t in 0..threads {
                 let (next, stop, f, init, finished) = (&next, &stop, &f, &init, &finished);
                 hs.push(sc.spawn(move || {
+                    // counts the worker as finished also when it dies of a panic outside a guarded region
+                    struct Done<'a>(&'a AtomicU64);
+                    impl Drop for Done<'_> {
+                        fn drop(&mut self) {
+                            self.0.fetch_add(1, Ordering::SeqCst);
+                        }
+                    }
+                    let _done = Done(finished);
                     SLOT.with(|s| s.set(t));
                     let mut s = init();
                     loop {
@@ -273,7 +360,6 @@ impl Run {
                         }
                         cur[t].0.store(u64::MAX, Ordering::SeqCst);
                     }
-                    finished.fetch_add(1, Ordering::SeqCst);
                     s
                 }));
             }
